@@ -7,7 +7,9 @@
 //
 // ops:  t+ <ns>                                                     => <state>            (one breaker)
 //                                                                   => <name> <state> | …  (named breakers)
-//       site <site> <class> p=<0|1> sf=<0|1> ua=<0|1> ig=<0|1> ctx=<none|live|done> u=<m> [name=<x>]
+//       site <site> <class> p=<0|1> sf=<0|1> ua=<n> ig=<0|1> ctx=<none|live|done> u=<m> [name=<x>]
+//            (sf / ig are per-site flags: sqlx sf=1 the error comes from the row scanner resp. the tx function, ig=1 it is
+//             injected in the driver instead of the connection provider; redis ig=1 blpop, sf=1 mixed pipeline results)
 //            => req=<n> ret=<same|unavail|stunavail|http503|ctx|other|none> panic=<0|1|other> drew=<n> <state> [oth=<Σsum of the other names>]
 package verifc01
 
@@ -32,6 +34,9 @@ const (
 	Pow53  = int64(1) << 53
 	// PanicValue is what a request panics with when the op says p=1
 	PanicValue = "c01 site request panic"
+	// SkipPrefix starts the panic value of a harness that cannot execute an op because an op it depends on
+	// (e.g. the sqlprep that yields the statement) is missing from a shrunk op list
+	SkipPrefix = "verif c01 skip:"
 )
 
 // Call is one parsed `site` op.
@@ -40,7 +45,7 @@ type Call struct {
 	Class    string
 	Panics   bool
 	ScanFail bool
-	UserAcc  bool
+	UserAcc  int
 	Ignored  bool
 	Ctx      string
 	U        int64
@@ -68,12 +73,17 @@ func ParseCall(op []string) Call {
 		panic("verif c01: short site op")
 	}
 	c := Call{Site: op[1], Class: op[2], Panics: kv(op[3], "p") == "1", ScanFail: kv(op[4], "sf") == "1",
-		UserAcc: kv(op[5], "ua") == "1", Ignored: kv(op[6], "ig") == "1", Ctx: kv(op[7], "ctx")}
+		Ignored: kv(op[6], "ig") == "1", Ctx: kv(op[7], "ctx")}
 	m, err := strconv.ParseInt(kv(op[8], "u"), 10, 64)
 	if err != nil {
 		panic("verif c01: bad draw")
 	}
 	c.U = m
+	ua, err := strconv.Atoi(kv(op[5], "ua"))
+	if err != nil || ua < 0 {
+		panic("verif c01: bad ua")
+	}
+	c.UserAcc = ua
 	if len(op) > 9 {
 		c.Name = kv(op[9], "name")
 	}
@@ -148,6 +158,7 @@ func Run(t *testing.T, gen func(r *verifh.Rng) []verifh.Section, newEnv func(nam
 				e := get(c.Name)
 				e.src.Set(c.U)
 				reqRuns := 0
+				skipped := false
 				panicked := "0"
 				ret := "none"
 				func() {
@@ -155,6 +166,8 @@ func Run(t *testing.T, gen func(r *verifh.Rng) []verifh.Section, newEnv func(nam
 						if p := recover(); p != nil {
 							if s, ok := p.(string); ok && s == PanicValue {
 								panicked = "1"
+							} else if ok && strings.HasPrefix(s, SkipPrefix) {
+								skipped = true
 							} else {
 								panicked = "other"
 							}
@@ -163,6 +176,11 @@ func Run(t *testing.T, gen func(r *verifh.Rng) []verifh.Section, newEnv func(nam
 					}()
 					ret = env.Invoke(c, MakeCtx(c.Ctx), func() { reqRuns++ })
 				}()
+				if skipped {
+					// the op cannot be executed in this (shrunk) context: an unparsable observation = a mismatch,
+					// never a verdict of the monitor
+					return "skipped-op-needs-an-earlier-op"
+				}
 				out := fmt.Sprintf("req=%d ret=%s panic=%s drew=%d %s", reqRuns, ret, panicked, e.src.Calls(),
 					breaker.VerifC01State(e.b))
 				if named {
@@ -193,6 +211,14 @@ type SiteSpec struct {
 	Flags   func(r *verifh.Rng, c *Call)
 	NoCtx   bool // the site has no context parameter
 	NoPanic bool
+	// Names, if set, are the breaker names (instances) of a named section instead of a, b, c.
+	Names []string
+	// Fix, if set, is applied after the name has been chosen (flags that depend on the instance).
+	Fix func(r *verifh.Rng, c *Call)
+	// Setup, if set, returns ops that open every section of this site (given the section's names).
+	Setup func(names []string) []string
+	// ScanGood / ScanBad: classes that can come out of the row scanner (sqlx query sites), by expected verdict.
+	ScanGood, ScanBad []string
 }
 
 type gen struct {
@@ -235,6 +261,10 @@ func b01(b bool) string {
 func (g *gen) call(sp SiteSpec, class string, u int64) {
 	r := g.r
 	c := Call{Site: sp.Site, Class: class, Ctx: "live", U: u}
+	if strings.HasPrefix(class, "scan:") {
+		c.Class = class[5:]
+		c.ScanFail = true
+	}
 	if sp.NoCtx {
 		c.Ctx = "none"
 	} else if r.Chance(1, 14) {
@@ -248,12 +278,15 @@ func (g *gen) call(sp SiteSpec, class string, u int64) {
 	}
 	if len(g.names) > 0 {
 		c.Name = g.names[r.Intn(len(g.names))]
-		if r.Chance(2, 3) {
+		if r.Chance(1, 2) {
 			c.Name = g.names[0]
 		}
 	}
-	op := fmt.Sprintf("site %s %s p=%s sf=%s ua=%s ig=%s ctx=%s u=%d", c.Site, c.Class, b01(c.Panics), b01(c.ScanFail),
-		b01(c.UserAcc), b01(c.Ignored), c.Ctx, c.U)
+	if sp.Fix != nil {
+		sp.Fix(r, &c)
+	}
+	op := fmt.Sprintf("site %s %s p=%s sf=%s ua=%d ig=%s ctx=%s u=%d", c.Site, c.Class, b01(c.Panics), b01(c.ScanFail),
+		c.UserAcc, b01(c.Ignored), c.Ctx, c.U)
 	if c.Name != "" {
 		op += " name=" + c.Name
 	}
@@ -277,6 +310,19 @@ func Gen(specs []SiteSpec, named bool) func(r *verifh.Rng) []verifh.Section {
 			t0 := int64(r.Pick(1, 250000000, 999999999, 1000000001)) + int64(r.Intn(2))*int64(r.Intn(1000000000))
 			if named {
 				g.names = []string{"a", "b", "c"}[:r.Range(2, 3)]
+				if sp.Names != nil {
+					g.names = sp.Names
+				}
+			}
+			if sp.Setup != nil {
+				g.ops = append(g.ops, sp.Setup(g.names)...)
+			}
+			// classes that come out of the row scanner are written "scan:<class>" in the lists below
+			for _, c := range sp.ScanGood {
+				sp.Good = append(append([]string{}, sp.Good...), "scan:"+c)
+			}
+			for _, c := range sp.ScanBad {
+				sp.Bad = append(append([]string{}, sp.Bad...), "scan:"+c)
 			}
 			all := append(append([]string{}, sp.Good...), sp.Bad...)
 			switch (i / len(specs)) % 4 {
